@@ -12,6 +12,6 @@ func Scripts() []Script {
 		{Name: "h-same-explicit-id", QB: 3, TB: 4, N: 2, MP: 1, Threads: [][]SOp{{{Kind: "sendX", K: 1}}, {{Kind: "sendX", K: 1}}}},
 		{Name: "h-explicit-vs-managed", QB: 2, TB: 3, N: 2, MP: 1, Threads: [][]SOp{{{Kind: "sendX", K: 1}}, {sM}, {ans}}},
 		{Name: "h-2senders-2responders-N2", QB: 1, TB: 2, N: 2, MP: 1, Threads: [][]SOp{{sM, sM}, {sM}, {ans}, {ans}}},
-		{Name: "h-pages-N2", QB: 2, TB: 3, N: 2, MP: 2, Threads: [][]SOp{{sM}, {{Kind: "answer", P: 1}}, {{Kind: "spurious", K: 7}}}},
+		{Name: "h-pages-N2", QB: 2, TB: 3, Dse1: true, N: 2, MP: 2, Threads: [][]SOp{{sM}, {{Kind: "answer", P: 1}}, {{Kind: "spurious", K: 7}}}},
 	}
 }
